@@ -120,6 +120,8 @@ def match_known(known, prop, v):
             continue
         if k.get("label") and k["label"] != v["label"]:
             continue
+        if k.get("labels") and v["label"] not in k["labels"]:
+            continue
         ok = True
         for name, allowed in (k.get("when") or {}).items():
             if v["choices"].get(name) not in allowed:
